@@ -166,10 +166,40 @@ fn hash_sizes(s: &mut Summary) {
     }
 }
 
+/// Lists of many entries: every listed name comes out, once, in order, with its own hash - also past 64, 256 and 1000 entries.
+fn long_lists(s: &mut Summary) {
+    for n in [1usize, 2, 63, 64, 65, 127, 128, 129, 255, 256, 257, 1000, 1025] {
+        let entries: Vec<(Vec<u8>, Vec<u8>)> = (0..n).map(|i| (format!("f{i:04}_{}.roa", if i % 2 == 0 { "a-b" } else { "Z_9" }).into_bytes(), sha256(format!("object {i}").as_bytes()))).collect();
+        let r = guarded(|| -> Result<(), String> {
+            let bytes = manifest_der(&entries, "20240101000000Z", "20991231235959Z", false);
+            let m = Mode::Der.decode(bytes.as_ref(), ManifestContent::take_from).map_err(|e| format!("does not decode: {e}"))?;
+            if m.len() != n || m.is_empty() { return Err(format!("len() = {}", m.len())); }
+            let listed: Vec<(Vec<u8>, Vec<u8>)> = m.iter().map(|f| (f.file().to_vec(), f.hash().to_vec())).collect();
+            if listed != entries { return Err(format!("iter() yields {} entries, not the {n} listed ones in order", listed.len())); }
+            let base = uri::Rsync::from_str("rsync://h/m/d/").unwrap();
+            let uris: Vec<_> = m.iter_uris(&base).collect();
+            if uris.len() != n { return Err(format!("iter_uris() yields {} entries", uris.len())); }
+            for (i, ((u, h), (name, _))) in uris.iter().zip(&entries).enumerate() {
+                if u.relative_to(&base) != Some(std::str::from_utf8(name).unwrap()) || h.verify(format!("object {i}").as_bytes()).is_err() {
+                    return Err(format!("entry {i} resolves to {u} / its hash does not verify against its object"));
+                }
+            }
+            Ok(())
+        });
+        match r {
+            Ok(Ok(())) => {}
+            Ok(Err(m)) => s.violation("list:long", format!("a manifest of {n} entries: {m}"), json!({"entries": n})),
+            Err(m) => s.violation("list:panic", m, json!({"entries": n})),
+        }
+        s.evals(1);
+    }
+}
+
 pub fn replay(args: &[String]) {
     let cases = read_cases(&args[0]);
     let mut s = Summary::new();
     hash_sizes(&mut s);
+    long_lists(&mut s);
     let data = b"manifest entry data";
     let mut sc = crate::sigobj::Ctx::new();
     let mut nth = 0usize;
